@@ -138,9 +138,9 @@ static void run_plan(const struct plan *p, struct outcome *o, int verbose)
 		} else if (o->exitcode == 77) {
 			id = "ANY.ub";
 			snprintf(extra, sizeof(extra), "sanitizer abort (exit 77) without an ASan report: undefined behaviour caught by UBSan (signed overflow, bad shift, ...) or a nested report");
-		} else if (o->sig == SIGALRM) {
+		} else if (o->sig == SIGALRM || o->sig == SIGPROF) {
 			id = "ANY.hang";
-			snprintf(extra, sizeof(extra), "no progress in real time (watchdog)");
+			snprintf(extra, sizeof(extra), "watchdog: 25 s of CPU time (or 150 s of real time) used up without the run ending");
 		} else {
 			snprintf(extra, sizeof(extra), "child died: exit=%d signal=%d", o->exitcode, o->sig);
 		}
